@@ -13,9 +13,12 @@ type goCtx struct {
 	oldName map[string]string // expression text -> saved variable
 	bad     string
 	recv    string
+	dataParam string
 }
 
 const replayHelpers = `
+var _ = strings.Contains
+
 func specIte[T any](c bool, a, b T) T {
 	if c {
 		return a
@@ -63,6 +66,36 @@ func specSameFormat(s, format string) bool {
 		break
 	}
 	return true
+}
+
+// specBase is the address of the first element of a slice or string (0 for nil/empty).
+func specBase(x any) uintptr {
+	v := reflect.ValueOf(x)
+	switch v.Kind() {
+	case reflect.Slice:
+		if v.Cap() == 0 {
+			return 0
+		}
+		return v.Pointer()
+	case reflect.String:
+		if v.Len() == 0 {
+			return 0
+		}
+		return uintptr(unsafe.Pointer(unsafe.StringData(v.String())))
+	case reflect.Pointer:
+		return v.Pointer()
+	}
+	return 0
+}
+
+// specFresh: x does not lie inside the memory of the input slice.
+func specFresh(x any, data []byte) bool {
+	b := specBase(x)
+	if b == 0 || cap(data) == 0 {
+		return true
+	}
+	lo := uintptr(unsafe.Pointer(unsafe.SliceData(data)))
+	return b < lo || b >= lo+uintptr(cap(data))
 }
 
 func specEqv(a, b any) bool {
@@ -165,9 +198,16 @@ func (c *goCtx) expr(n *Node) string {
 			s := c.expr(args[0])
 			c.old = save
 			return s
-		case "fresh", "allocated", "disjoint", "separate":
+		case "fresh":
+			if c.dataParam != "" {
+				return "specFresh(" + c.expr(args[0]) + ", " + c.dataParam + ")"
+			}
 			return "true"
-		case "ival", "base":
+		case "allocated", "disjoint", "separate":
+			return "true"
+		case "base":
+			return "specBase(" + c.expr(args[0]) + ")"
+		case "ival":
 			return c.fail(name + "()")
 		case "unchanged":
 			save := c.old
